@@ -37,7 +37,9 @@ import (
 	"google.golang.org/protobuf/types/dynamicpb"
 )
 
-func init() { Register("pres", famPres) }
+// "presr" is the same family under a second name: bin/check names the case files after the family, and the
+// run with build tag protoreflect (reflection slow path of package proto) must not share them.
+func init() { Register("pres", famPres); Register("presr", famPres) }
 
 // ---------------------------------------------------------------- unexported presence methods
 // internal/impl/presence.go has the word-index arithmetic (toElem); its methods are not
